@@ -20,5 +20,5 @@ CHECK = {'level': 'exploration',
                'ownership violations on the histories generated; proves nothing beyond them.',
  'level_note': 'Trusted: my Value model and interpreter, the to_cif/from_cif bridges (public API only), rapidcheck, sanitizers.',
  'engines': [{'src': 'pbt/C19_valueops.cpp',
-              'quick': {'workers': 8, 'cases': 3000, 'size': 60},
+              'quick': {'workers': 8, 'cases': 6000, 'size': 60},
               'thorough': {'workers': 16, 'cases': 20000, 'size': 80}}]}
